@@ -62,6 +62,7 @@ def directed_cases(seed: int, tier: str) -> typing.List[dict]:
         ("user-templates-same-names", {"templates": "dup_names"}),
         ("lookup-deps", {"want_lookup": True}),
         ("ext-stem", {"ext": ".inc", "ns_stem": "nsfile", "ns_types": True}),
+        ("empty-root", {"root": "emptyroot", "lookups": []}),
     ]
     for lang in ["c", "cpp", "py"]:
         for name, o in combos:
@@ -85,6 +86,9 @@ def _gen_opts(r: Rng, ds: dsdlgen.DsdlSet, lang: typing.Optional[str], fixed: ty
     o = {"lang": lang, "root": root, "lookups": ds.root_deps(root)}  # type: typing.Dict[str, typing.Any]
     if r.chance(1, 4):
         o["lookups"] = [x for x in roots if x != root]
+    if r.chance(1, 12):
+        # a root namespace without a single data type (a placeholder, a vendor folder not yet populated)
+        o["root"], o["lookups"] = "emptyroot", []
     o["outdir_spelling"] = r.choice(["abs", "rel", "rel_dot", "abs_slash", "rel_slash", "symlink_dotdot", "symlink_dotdot_rel"])
     o["in_spelling"] = r.choice(["abs", "abs", "rel"])
     if o["lookups"] and r.chance(1, 4):
@@ -186,6 +190,7 @@ def run_case(case: dict, ctx: dict) -> dict:
         ds = dsdlgen.generate_valid(tuple(case["dsdl_seed"]), os.path.join(ctx["scratch"], "val"), stats=stats)
         roots, files = ds.roots, ds.files
     dsdlgen.materialize_files(files, roots, world.in_dir)
+    os.makedirs(os.path.join(world.in_dir, "emptyroot"), exist_ok=True)
     tier = case.get("tier", ctx.get("tier", "quick"))
     r = Rng(*case["ops_seed"]) if "ops_seed" in case else Rng(PROP, "directed", case.get("label", ""))
 
